@@ -405,7 +405,11 @@ impl NetcodeServer {
                 packet.packet_type()
             );
 
-            client.last_packet_received_time = self.current_time;
+            // Only replay-protected packets prove that the client is alive: connection requests are
+            // not sealed at all and responses can be replayed, so they must not postpone the timeout.
+            if matches!(packet, Packet::Payload(_) | Packet::KeepAlive { .. }) {
+                client.last_packet_received_time = self.current_time;
+            }
             match client.state {
                 ConnectionState::Connected => match packet {
                     Packet::Disconnect => {
